@@ -216,6 +216,19 @@ func c06Consumed(c *core.Ctx, w WLCase) {
 }
 
 func c06Run(c *core.Ctx) {
+	// a coordinate that can never take one of its values (a position that is
+	// never capitalised ...) shrinks the set of possible passwords below the
+	// 2^Entropy() the recipe claims: the coverage exploration of C04, judged
+	// here for recipes whose entropy includes the capitalisation bonus
+	for _, L := range []int{17, 33, 65, 130} {
+		for _, cp := range []string{"random", "one"} {
+			for _, ws := range [][]string{{"ab"}, {"ab", "cd"}} {
+				if c.Mine() {
+					c04Coverage(c, WLCase{Words: ws, Length: L, Cap: cp, Sep: Sep{Kind: "none"}})
+				}
+			}
+		}
+	}
 	for _, L := range []int{8, 16, 17, 32, 33, 64, 65, 130} {
 		for _, ws := range [][]string{{"ab"}, {"ab", "cd"}, {"ab", "cd", "efg"}} {
 			for _, cp := range wlSchemes {
